@@ -343,9 +343,10 @@ pub fn scn_invalid(o: &Opts, tr: &mut Tr, prop: &str) {
 pub fn scn_total(o: &Opts, tr: &mut Tr, prop: &str) {
     use miniz_oxide::inflate::core::DecompressorOxide;
     let mut r = gen::rng(o.seed, 505);
+    total_structured(o, tr, prop, &mut gen::rng(o.seed, 5050));
     let srcs = sources(o, &mut r, false);
     let geoms = [0usize, 1, 2, 3, 5, 100, 128, 257, 258, 259, 260, 517, 4096, 32768, 40000, 1000];
-    let ncases = if o.thorough { 1500 } else { 300 };
+    let ncases = if o.thorough { 6000 } else { 1500 };
     for ci in 0..ncases {
         tr.case(&format!("tot-{}", ci), prop, json!({}));
         // byte source for this history: random, mutated stream, or valid stream
@@ -388,6 +389,26 @@ pub fn scn_total(o: &Opts, tr: &mut Tr, prop: &str) {
                 }
             }
         }
+    }
+}
+
+/// C05 (structured part): valid streams of literal + maximal-match pairs decoded with budgets that
+/// leave 257..261 bytes of room at call boundaries - the fast loop's entry guard.
+pub fn total_structured(o: &Opts, tr: &mut Tr, prop: &str, r: &mut StdRng) {
+    let n = if o.thorough { 200 } else { 40 };
+    for i in 0..n {
+        let d = gen::data("runs259", 3000 + r.gen_range(0..6000), r);
+        let zl = i % 2 == 0;
+        let cfg = Cfg { zlib: zl, level: [6u8, 1, 9, 2][i % 4], strat: [0usize, 3, 4][i % 3], wbits: 15, api: "params" };
+        let z = make_stream(&d, &cfg, false, r);
+        tr.hold();
+        tr.case(&format!("tots-{}", i), prop, json!({"zlen": z.len(), "plen": d.len()}));
+        tr.ev(stream_event(&z, Some(&d), zl, json!({})));
+        let b = Budget::Random(vec![257, 258, 259, 260, 261, 516, 517, 518, 519, 775, 776, 777]);
+        let res = drive_flat(tr, 1, &z, base_flags(zl), &[z.len()], &b, d.len() + [0usize, 1, 258, 300][i % 4], false, true, r);
+        let res2 = drive_ring(tr, 2, &z, base_flags(zl), &gen::chunks("rand", z.len(), r), &b, 32768, true, r);
+        let bad = |x: &DecResult| !(x.status == Some(miniz_oxide::inflate::TINFLStatus::Done) && x.out == d);
+        tr.release(i < 6 || bad(&res) || bad(&res2));
     }
 }
 
